@@ -77,6 +77,13 @@ def r37(F):
     return r
 
 
+_O = {}
+
+
+def _origins(fn):
+    return Origins(fn)
+
+
 def r38(F):
     r = RuleResult("R38", "call frames",
                    "on the Err edge of every VM::fcall_impl call and of the module-body run in op_copy, Error::push_call_stack is "
@@ -93,6 +100,35 @@ def r38(F):
         ok = bool(pcs) and all(util.must_pass(fn, ee, pcs, exits=cfg.exits(fn)) for ee in ees[:1])
         r.inst("%s->fcall_impl" % n.split("::")[-1], fn.where(b), ok, "Err edge records the calling position" if ok else
                "an error from inside the called function leaves %s without the caller's position (no VIA line)" % n.split("::")[-1])
+        # the recorded position is a position of the call (the handler's pos parameter, a popped operand), never one that came
+        # back from an earlier callback (a loop-carried result position points into the callee's body)
+        o = None
+        for pb in sorted(pcs):
+            if o is None:
+                o = _origins(fn)
+            if not any(cfg.reaches(fn, ee, pb) or ee == pb for ee in ees):
+                continue
+            labs = o.at(fn.term(pb)["args"][1], pb)
+            from_result = any(l[0] == "call" and l[1] == FCALL for l in labs)
+            key = "%s->fcall_impl:frame-position" % n.split("::")[-1]
+            if any(i["key"].startswith("R38:" + key) and not i["ok"] for i in r.instances):
+                continue
+            r.inst(key, fn.where(pb), not from_result,
+                   "the frame records a position of the call" if not from_result else
+                   "the position recorded for the frame can be one returned by an earlier callback (loop-carried): the VIA line points "
+                   "into the function body and the calling statement is not listed")
+    # the value a call produces is positioned at the call
+    of = F.fn(VM + "op_fcall")
+    oo = _origins(of)
+    pushes = [(b, t) for b, t in of.calls() if callee(t) == VM + "push"]
+    need(pushes, "op_fcall does not push the call result")
+    for b, t in pushes:
+        labs = oo.at(t["args"][2], b)
+        from_result = any(l[0] == "call" and l[1] == FCALL for l in labs)
+        r.inst("op_fcall:result-position", of.where(b), not from_result,
+               "the result of a call carries the position of the call" if not from_result else
+               "the result of a call keeps the position it had inside the callee: a later type error on it is reported in the "
+               "statement that defines the function")
     oc = F.fn(VM + "op_copy")
     runs = [(b, t) for b, t in oc.calls() if callee(t) == VM + "run"]
     pcs = {bb for bb, tt in oc.calls() if callee(tt).endswith("Error::push_call_stack")}
